@@ -136,6 +136,19 @@ def model_canon(ans: str) -> str:
     return ans
 
 
+def pbatch(drv, lines, chunk=64):
+    """Driver.batch only goes parallel from 2000 lines on; the slow requests here (exponents near a million, histories) come in
+    hundreds, so they are spread over the driver's workers in small chunks"""
+    import concurrent.futures
+    lines = list(lines)
+    if len(lines) <= chunk:
+        return drv.batch(lines)
+    parts = [lines[i:i + chunk] for i in range(0, len(lines), chunk)]
+    with concurrent.futures.ThreadPoolExecutor(drv.workers) as ex:
+        res = list(ex.map(drv.batch, parts))
+    return [x for r in res for x in r]
+
+
 # ---------------------------------------------------------------- oracle
 def fr(x):
     return None if x is None else Fraction(Decimal(x))
@@ -184,6 +197,8 @@ def oracle(fmt, mn, mx, st, val, impl):
         cls = impl.split(":")[1] if impl.startswith("other:") else "accepted"
         return ("reject:" + cls, f"{short(val)} has no (finite) decimal reading and must fail with FormatError, got {impl}")
     cls = impl.split(":")[1] if impl.startswith("other:") else "accepted"
+    if impl.startswith("ok float") and impl.split(" ")[2] in ("inf", "-inf", "nan"):
+        return ("float:non-finite-result", f"{fmt} min={mn!r} max={mx!r} step={st!r} value={short(val)}: a finite input gave {impl}")
     if stepgrid.extreme_metadata(mn, mx, st):
         # decimal's exponent range (Emax = 999999) can be reached: only the error class is demanded (the model says which)
         if impl.startswith("other:"):
@@ -428,8 +443,8 @@ def gen_bad(tier, r):
 EXTREME_VALUES = ["1e1000000", "-1e1000000", "1e400", "-1e400", "1e309", "9.99999e308", "9.99999e307", "1e308", "-1e308",
                   "1.797693134862315807e308", "1.797693134862315808e308", "-1.797693134862315808e308", 1.7976931348623157e308,
                   -1.7976931348623157e308, "1.7976931348623157e308", "1.79769e308", "1.797695e308",
-                  10 ** 5000, -10 ** 5000, 10 ** 308, 10 ** 309, 10 ** 309 - 1, 2 ** 1024, 2 ** 1024 - 2 ** 970, 2 ** 1024 - 2 ** 970 - 1,
-                  "1" + "0" * 4400, "1e999999", "9.99999e999999", "9.999995e999999", "1e999999999999999999", "-1e999999999999999999",
+                  10 ** 4301, -10 ** 4301, 10 ** 308, 10 ** 309, 10 ** 309 - 1, 2 ** 1024, 2 ** 1024 - 2 ** 970, 2 ** 1024 - 2 ** 970 - 1,
+                  "1" + "0" * 4301, "1e999999", "9.99999e999999", "9.999995e999999", "1e999999999999999999", "-1e999999999999999999",
                   "1e5000", "1e20", "1e19", str(2 ** 64), "123456789e300",
                   "1e-1000000", "-1e-1000000", "1e-400", "-1e-400", 5e-324, "5e-324", "3.49996e-1000000", "1e-999999999999999999",
                   "0e1000000", "0e-1000000", "-0e999999999", "0e999999999999999999", "0e-999999999999999999", "-0.0e-400"]
@@ -445,12 +460,14 @@ EXTREME_METADATA = [(("float", None, None, "1e-999999"), 5), (("float", None, No
 def gen_extreme(tier):
     cases = []
     for fmt in ["uint8", "uint64", "int", "float"]:
-        for b in EXTREME_BOUNDS:
+        for b in (EXTREME_BOUNDS[:8] if tier == "quick" else EXTREME_BOUNDS):
             for v in EXTREME_VALUES:
+                if (isinstance(v, int) and abs(v) > 10 ** 4000 or isinstance(v, str) and len(v) > 4000) and b not in EXTREME_BOUNDS[:4:3]:
+                    continue            # 4302-digit coefficients are slow to parse in the driver: two bound shapes are enough
                 cases.append((fmt,) + b + (v,))
     for (f, mn, mx, st), v in EXTREME_METADATA:
         cases.append((f, mn, mx, st, v))
-    for v in [10 ** 5000, -10 ** 4301, 10 ** 4299, "1e1000000", "1e-1000000"]:
+    for v in [10 ** 4301, -10 ** 4301, 10 ** 4299, "1e1000000", "1e-1000000"]:
         cases.append(("bool", None, None, None, v))
     return [c for c in cases if driver_can_align(c)]
 
@@ -464,8 +481,11 @@ def driver_can_align(case):
     if d is None or not st or fmt == "bool":
         return True
     c = stepgrid.clamp_dec(d, mn, mx)
+    if c and c.adjusted() > 308:
+        return True                     # rejected before any arithmetic
     off = Decimal(mn) if mn is not None else Decimal(0)
-    return not (c and off and abs(c.as_tuple().exponent - off.as_tuple().exponent) > 5000 and c.adjusted() <= 308)
+    low = min(c.as_tuple().exponent, off.as_tuple().exponent)
+    return not any(x and x.as_tuple().exponent - low > 5000 for x in (c, off))
 
 
 def dangerous(case):
@@ -799,7 +819,7 @@ def hist_stream(ctx, drv, cov, add, histories):
         iids, res = run_history(ops)
         runs.append((iids, res))
         lines.append(hist_model_line(iids, ops))
-    answers = drv.batch(lines)
+    answers = pbatch(drv, lines, 16)
     for hi, (ops, (iids, res), ans) in enumerate(zip(histories, runs, answers)):
         mwords = [hist_model_canon(w) for w in ans.split(" ")] if ans != "none" else []
         cur = {k: (f, None, None, None) for k, f in enumerate(HIST_INIT_FMT)}
@@ -910,7 +930,7 @@ def crosscheck_sample(pairs):
             key = ("cv", t[1], " ".join(a[:2]))
         else:
             rounds = t[1] in ("fix", "toint")
-            key = ("op", t[1], t[3] if rounds else "", a[1] if a[0] == "cmp" else a[0], rounds and a[1] != t[4])
+            key = ("op", t[1], t[3] if rounds else "", a[1] if a[0] == "cmp" else a[0], rounds and (len(a) < 2 or a[1] != t[4]))
         buckets.setdefault(key, []).append((line, ans))
     for key in [k for k in buckets if k[0] == "op" and k[1] in ("fix", "toint") and not k[4]]:
         if key[:4] + (True,) in buckets:          # prefer the requests where digits were actually rounded away
@@ -977,7 +997,7 @@ def run(ctx):
     xpairs = []          # (request line, raw driver answer) of the whole run, for the vm_compute cross-check
     for sname, cases in streams:
         lines = [model_line(*c) for c in cases]
-        raw = drv.batch(lines)
+        raw = pbatch(drv, lines) if sname == "extreme" else drv.batch(lines)
         xpairs += zip(lines, raw)
         model = [model_canon(a) for a in raw]
         risky = [i for i, c in enumerate(cases) if dangerous(c)]
